@@ -367,7 +367,10 @@ def _c01(tier):
              min_cases=100, timeout=1200, workers=4)]
     st.append(trace("random-programs-node-trace", ["run", "-n", "80" if tier == "quick" else "1500"], "Trace_Run.tla", "Trace_Run.cfg"))
     if tier == "thorough":
-        st.append(mc("programs-3-nodes", "MC_C01.tla", "MC_C01_thorough.cfg", min_cases=50000, timeout=6000))
+        # every 3-node program over the core templates (the full template set has > 600 000 3-node programs: sampled below)
+        st.append(mc("programs-3-nodes-core-templates", "MC_C01.tla", "MC_C01_core3.cfg", min_cases=50000, timeout=3000, workers=8))
+        st.append(mc("programs-5-nodes-sampled", "MC_C01.tla", "MC_C01_sim.cfg", mode="simulate", num=300, depth=40, workers=8,
+                     min_cases=1500, timeout=3000))
     return st
 
 
